@@ -18,7 +18,8 @@ Kinds == <<"userset_nil", "userset_empty_oneof", "union_nil_usersets", "union_no
            "conditions_nil_value", "condition_key_mismatch", "condition_params_nil", "condition_param_nil", "list_param_without_generic",
            "map_param_without_generic", "param_type_unspecified", "condition_metadata_nil", "source_info_nil", "schema_empty",
            "restriction_unknown_condition", "duplicate_typedef", "ttu_on_missing_tupleset", "module_without_file", "file_without_module",
-           "restriction_empty_relation_first", "restriction_nil_wildcard_first", "restriction_nil_first">>
+           "restriction_empty_relation_first", "restriction_nil_wildcard_first", "restriction_nil_first",
+           "list_param_empty_generics", "map_param_empty_generics", "generic_type_nil_entry">>
 Sites == 0..2
 Holes == { <<Kinds[k], s>> : k \in 1..Len(Kinds), s \in Sites }
 Init == st = [base |-> 0, holes |-> {}, done |-> FALSE]
